@@ -85,7 +85,8 @@ fn obs_text(o: &Obs) -> String {
 
 pub fn check_case(c: &Case18, stats: &mut Stats) -> Vec<Failure> {
     let zod = c.mode == "zod";
-    let ty = wrap(&c.wrap, named(&c.name), false);
+    // `true`: the map_key wrap then puts the name in key position (HashMap<N, i32>), as for an enum
+    let ty = wrap(&c.wrap, named(&c.name), true);
     let src = format!("{}{}", c05::source_for(&ty), if c.generic { String::new() } else { local_def(&c.name, &c.local) });
     must_parse("src/lib.rs", &src);
     let mut table = vec![(c.name.clone(), c.target.clone())];
@@ -95,7 +96,7 @@ pub fn check_case(c: &Case18, stats: &mut Stats) -> Vec<Failure> {
     // reference run
     let (ref_src, ref_cfg, ref_name) = if c.generic {
         let twin = "MappedTwin";
-        let ty2 = wrap(&c.wrap, named(twin), false);
+        let ty2 = wrap(&c.wrap, named(twin), true);
         let mut t2 = vec![(twin.to_string(), c.target.clone())];
         t2.extend(c.extra.iter().cloned());
         (c05::source_for(&ty2), Cfg { mode: c.mode.clone(), type_mappings: t2, ..Default::default() }, twin.to_string())
@@ -138,10 +139,28 @@ pub fn check_case(c: &Case18, stats: &mut Stats) -> Vec<Failure> {
                 stats.excluded_known += 1;
             }
             (Obs::Shape(sa, _), Obs::Shape(sb, srcb)) => {
-                let want = if c.generic { sa.clone() } else { subst(sa, &ref_name, &to) };
-                if *sb != want {
+                let mut want = if c.generic { sa.clone() } else { subst(sa, &ref_name, &to) };
+                let mut ref_tag = None;
+                if !c.generic && *sa != Shape::Unknown {
+                    // the differential needs the reference run to mention N where the type does;
+                    // if it rendered N as something else (not by name) it says nothing about the
+                    // mapping, and the model decides: D(T) with N := M
+                    let mut names = BTreeSet::new();
+                    sa.refs(&mut names);
+                    if !names.contains(&ref_name) {
+                        want = ty.denote(&|n| if n == c.name { Some(to.clone()) } else { None });
+                        ref_tag = Some("reference_lost_name");
+                    }
+                }
+                if *sb != want && ref_tag.is_some() && sb.without_undefined() == want {
+                    // omittable members (`?:`) are C05's / C10's business
+                } else if *sb != want {
                     // event payloads that are not translated at all stay `unknown` in both runs
-                    fails.push(mk("mapping_not_applied", format!("{} ⟸ {}", sb, srcb), format!("{} (reference run: {})", want, sa)));
+                    let mut f = mk("mapping_not_applied", format!("{} ⟸ {}", sb, srcb), format!("{} (reference run: {})", want, sa));
+                    if let Some(t) = ref_tag {
+                        f = f.tag(t);
+                    }
+                    fails.push(f);
                 }
                 let mut refs = BTreeSet::new();
                 sb.refs(&mut refs);
